@@ -217,7 +217,7 @@ def battery_violations(text, inter, jobs):
     """run every configuration once; returns [(cfg, Outcome)] of the non ok/error outcomes"""
     cfgs = full_battery(inter)
     outs = parallel_map(lambda c: (c, run_cfg(text, c)), cfgs, jobs=jobs)
-    return [(c, o) for c, o in outs if o.cls in ("violation", "timeout")]
+    return [(c, o) for c, o in outs if o.cls in ("violation", "timeout")]  # "starved" is not a verdict
 
 
 def environment_healthy():
@@ -231,13 +231,13 @@ def confirm_timeout(text, cfg):
     for _ in range(3):
         if run_cfg(text, cfg, timeout=60).cls != "timeout":
             return False
-    return environment_healthy()
+    return True
 
 
 class State:
     keywords = []
     inter = {}
-    lock = threading.Lock()
+    unit = None
 
 
 def check_mutant(case):
@@ -274,10 +274,18 @@ def check_mutant(case):
                 cfg["flags"] = [["--pedantic"], ["--debug"], ["--verbose=debug"]][fl]
     out = run_cfg(text, cfg)
     classes = ["tool." + cfg["tool"], "outcome." + out.cls, "dsltype." + dsl_type_of_text(text)]
+    if out.cls == "starved":
+        return Result(True, classes=classes)
     if out.cls == "timeout":
         if confirm_timeout(text, cfg):
-            return Result(False, key="C35.timeout." + cfg["tool"], msg="no termination within 60 s (3/3): " + " ".join(command(cfg)))
-        classes.append("timeout_not_reproduced")
+            key, msg = "C35.timeout." + cfg["tool"], "no termination within 60 s of CPU time (3/3): " + " ".join(command(cfg))
+            if State.unit is None:
+                return Result(False, key=key, msg=msg)
+            # recorded as is: shrinking a hang would cost minutes per step
+            State.unit.fail("mutants", key, msg, dict(case, cfg=cfg))
+            classes.append("timeout_confirmed")
+        else:
+            classes.append("timeout_not_reproduced")
         return Result(True, classes=classes)
     if out.cls == "violation":
         return Result(False, key="C35." + out.key, msg="%s: %s\n%s\n%s" % (" ".join(command(cfg)), out.detail, out.report[:2500], out.stderr[-600:]))
@@ -412,7 +420,7 @@ def confirm_artifact(u, art, inter, jobs):
                 return True
         elif o.cls == "timeout" and confirm_timeout(text, cfg):
             fuzzpy.save_artifact(u, art, REPLAY_DIR)
-            u.fail("fuzz", "C35.timeout." + cfg["tool"], "no termination within 60 s (3/3): " + " ".join(command(cfg)),
+            u.fail("fuzz", "C35.timeout." + cfg["tool"], "no termination within 60 s of CPU time (3/3): " + " ".join(command(cfg)),
                    {"text": text, "cfg": cfg}, ext=".json")
             return True
     s["classes"]["artifact.not_confirmed." + kind] = s["classes"].get("artifact.not_confirmed." + kind, 0) + 1
@@ -456,6 +464,7 @@ def main():
     if rp:
         sys.exit(replay(rp))
     u = LockedUnit(UNIT)
+    State.unit = u
     t0 = time.time()
     workdir = os.path.join(WORK, "setup")
     os.makedirs(workdir, exist_ok=True)
